@@ -3,13 +3,15 @@ import P2PVerif.Driver.Mux
 import P2PVerif.Driver.Cache
 import P2PVerif.Driver.DHT
 import P2PVerif.Driver.Key
+import P2PVerif.Driver.Addr
 open P2PVerif.Driver
 
 def streams : List (String × Stream) := [
   ("mux", muxStream),
   ("cache", cacheStream),
   ("dht", dhtStream),
-  ("key", keyStream)
+  ("key", keyStream),
+  ("addr", addrStream)
 ]
 
 def main (args : List String) : IO UInt32 := do
